@@ -26,7 +26,10 @@ EXTRA_TARGETS = ("Codec/Run.vo",)
 EXTS = ["xtc", "trr", "dcd", "dtr"]
 RULE = ("trajectories are lists of float32 bit patterns drawn per magnitude class (tiny/unit/big/boundary of "
         "_format_83 and of the 8.3 fields/rounding ties/signed zeros/clustered for XTC runs/over the field limit) "
-        "x frames 1..6 x atoms {1..30} x cell {none, ortho, triclinic, per-frame} x times {default, non-uniform}; "
+        "x frames 1..6 x atoms {1..30} x cell {none, ortho, triclinic, per-frame} x times {default, non-uniform}; dilute systems whose neighbour spacing "
+        "puts the XTC small-size index on every slot of magicints[]; a history axis (object saved / box vectors, volumes, periodic "
+        "distances evaluated with an initial cell, then the cell replaced via unitcell_vectors, unitcell_lengths+angles, in-place "
+        "and per-frame in-place assignment) before the saves; "
         "each is saved in every extension of Trajectory._savers (gro precision, pdb ter/header/bfactors varied); "
         "a case is one (trajectory, format, options); distinct by hash of all of it; non-trivial when Trajectory.save "
         "wrote the file (refused saves are counted as trivial)")
@@ -35,12 +38,14 @@ TRUSTED = ["harness/impl/codec_impl.py (builds the trajectory from bit patterns,
            "generator and exact-rational comparison (fractions.Fraction) in harness/props/C01.py",
            "Python's %f / format(): correctly rounded on the exact binary value (modelled by py_fmt); float(): correctly rounded",
            "IEEE-754 binary32 multiplication by 10.0 is correctly rounded (modelled by rnd32)"]
-ASSUMPTIONS = ["comparisons of float32 coordinates with the decimal constants of _format_83 are modelled as exact rational "
+ASSUMPTIONS = ["the XTC constants of the model (magicints[], FIRSTIDX, raw-float limit, magic 1995, precision 1000) are those of the format "
+               "standard, hand-written in coq/Codec/XtcModel.v; obligation xtc_format_standard ties /repo's values to them",
+               "comparisons of float32 coordinates with the decimal constants of _format_83 are modelled as exact rational "
                "comparisons (no float32 lies between a constant and its binary64/binary32 rounding; checked by the translator)",
                "overflow of binary32 (|x| >= 2^128) and NaN/inf are outside the model",
                "topology text (names, serials) is opaque: only the numeric columns of PDB/GRO/XYZ/LAMMPS lines are modelled",
-               "unit cell vectors of XTC/TRR/GRO are compared with Trajectory.unitcell_vectors as found in memory (C17 owns "
-               "lengths/angles <-> vectors)"]
+               "unit cell vectors of XTC/TRR/GRO are compared with the box vectors mdtraj computes for the trajectory's CURRENT "
+               "unitcell_lengths/angles on a fresh object (C17 owns the lengths/angles <-> vectors formulas)"]
 
 # precision a format is *stated* to have (format standards; not taken from the translator)
 STD = {
@@ -243,6 +248,7 @@ def read_tables():
     T["magicints"] = [int(x) for x in re.findall(r"\d+", m.group(1))]
     T["firstidx"] = int(_one(r"#define FIRSTIDX (\d+)", s, "FIRSTIDX").group(1))
     T["raw_max"] = int(_one(r"if\(size<=(\d+)\)", s, "raw-float atom limit").group(1))
+    T["xtc_magic"] = int(_one(r"#define MAGIC (\d+)", _src("mdtraj/formats/xtc/src/xdrfile_xtc.c"), "XTC magic number").group(1))
     s = _src("mdtraj/formats/xtc/xtc.pyx")
     pr = Fr(_one(r"prec = ([\d.]+) \* np\.ones\(n_frames, dtype=np\.float32\)", s, "xtc precision").group(1))
     if pr.denominator != 1:
@@ -290,11 +296,13 @@ def render_tables(T):
     for k in ("f83_cut", "cryst_len_w", "cryst_len_p", "cryst_ang_w", "cryst_ang_p", "gro_extra", "gro_box_w", "gro_box_p",
               "gro_coord_col", "xyz_w", "xyz_p", "lammps_w", "lammps_p", "rst7_w", "rst7_p"):
         L.append("Definition %s : nat := %d." % (k, T[k]))
-    L += ["", "(* xdrfile.c / xtc.pyx *)",
-          "Definition xtc_magicints : list Z := [%s]." % "; ".join(str(x) for x in T["magicints"]),
-          "Definition xtc_firstidx : Z := %d." % T["firstidx"],
-          "Definition xtc_prec : Z := %d." % T["xtc_prec"],
-          "Definition xtc_raw_max_atoms : Z := %d." % T["raw_max"], ""]
+    L += ["", "(* xdrfile.c / xdrfile_xtc.c / xtc.pyx as found in the source; the model (Codec/XtcModel.v) uses the constants",
+          "   of the XTC format standard and Props/C01.v:xtc_format_standard obliges these to coincide with them *)",
+          "Definition src_xtc_magicints : list Z := [%s]." % "; ".join(str(x) for x in T["magicints"]),
+          "Definition src_xtc_firstidx : Z := %d." % T["firstidx"],
+          "Definition src_xtc_prec : Z := %d." % T["xtc_prec"],
+          "Definition src_xtc_raw_max_atoms : Z := %d." % T["raw_max"],
+          "Definition src_xtc_magic : Z := %d." % T["xtc_magic"], ""]
     return "\n".join(L)
 
 
@@ -352,16 +360,41 @@ def gen_value(rng, cls):
     raise ValueError(cls)
 
 
+# XTC format standard (generator only: spacing classes that sweep the adaptive small-size index over the table)
+XTC_MAGIC = [0, 0, 0, 0, 0, 0, 0, 0, 0, 8, 10, 12, 16, 20, 25, 32, 40, 50, 64, 80, 101, 128, 161, 203, 256, 322, 406, 512, 645,
+             812, 1024, 1290, 1625, 2048, 2580, 3250, 4096, 5060, 6501, 8192, 10321, 13003, 16384, 20642, 26007, 32768,
+             41285, 52015, 65536, 82570, 104031, 131072, 165140, 208063, 262144, 330280, 416127, 524287, 660561, 832255,
+             1048576, 1321122, 1664510, 2097152, 2642245, 3329021, 4194304, 5284491, 6658042, 8388607, 10568983,
+             13316085, 16777216]
+DILUTE_EXTS = [".xtc", ".trr", ".h5"]
+
+
+def gen_dilute_frame(rng, n_atoms, slot):
+    """a dilute system: file-order neighbours 0.27..0.33 * magicints[slot] / 1000 nm apart along every axis, so that
+    the smallest L1 neighbour distance falls in (magicints[slot-1], magicints[slot]] (the coder starts at smallidx =
+    slot), every atom is run-length coded relative to its predecessor and the index then adapts upwards through the
+    following table entries"""
+    m = XTC_MAGIC[slot] / 1000.0
+    pos = [rng.uniform(-2, 2) * m for _ in range(3)]
+    fr = []
+    for _a in range(n_atoms):
+        fr += [f2b(p) for p in pos]
+        pos = [p + rng.choice([-1, 1]) * rng.uniform(0.27, 0.33) * m for p in pos]
+    return fr
+
+
 def rnd32_mul10(b):
     """exact value of float32(b) * 10 rounded to binary32 (generator only)"""
     return fr32(f2b(float(fr32(b) * 10)))
 
 
-def gen_traj(rng, cls, n_atoms, n_frames, cell, times):
+def gen_traj(rng, cls, n_atoms, n_frames, cell, times, slot=None):
     xyz = []
     for _ in range(n_frames):
         fr = []
-        if cls == "cluster":
+        if cls == "dilute":
+            fr = gen_dilute_frame(rng, n_atoms, slot)
+        elif cls == "cluster":
             base = [rng.uniform(-3, 3) for _ in range(3)]
             for a in range(n_atoms):
                 if a % 3 == 0 and rng.random() < 0.5:
@@ -416,7 +449,7 @@ def gen_traj(rng, cls, n_atoms, n_frames, cell, times):
 
 def saves_for(rng, tj, quick):
     sv = []
-    for ext in ALL_EXTS:
+    for ext in (DILUTE_EXTS if tj["cls"] == "dilute" else ALL_EXTS):
         opts = {}
         if ext == ".gro":
             opts = {"precision": rng.choice([1, 2, 3, 3, 4, 5, 6])}
@@ -468,6 +501,25 @@ def build_trajs(ctx):
         cell = ["none", "ortho", "tric", "perframe"][(i // 2) % 4]
         times = "default" if rng.random() < 0.25 else "nonuniform"
         trajs.append(gen_traj(rng, cls, na, nf, cell, times))
+    # dilute systems: the XTC small-size index starts at every slot of magicints[] (thorough: all of 9..64, quick: a
+    # spread with stride 5 -- the index climbs up to 8 entries within a frame, so every entry is used in both tiers)
+    slots = list(range(9, 65)) if not quick else [9 + (5 * k + ctx.seed) % 56 for k in range(12)]
+    for slot in slots:
+        tj = gen_traj(rng, "dilute", rng.choice([10, 12, 17, 24, 30]), rng.randint(1, 2),
+                      rng.choice(["none", "ortho", "tric"]), "nonuniform", slot=slot)
+        tj["slot"] = slot
+        trajs.append(tj)
+    # history axis: a long-lived object (saved before, box vectors / volumes / periodic distances evaluated) whose
+    # cell is then replaced through each public way of assigning it; every later save must hold the CURRENT cell
+    vias = ["vectors", "lengths_angles", "inplace", "inplace_frame"]
+    touches = [[{"op": "save", "ext": ".xtc"}], [{"op": "vectors"}], [{"op": "volumes"}], [{"op": "distances"}],
+               [{"op": "save", "ext": ".gro"}, {"op": "save", "ext": ".h5"}], [{"op": "save", "ext": ".trr"}, {"op": "volumes"}]]
+    k = 0
+    for tj in trajs:
+        if tj.get("cell") and tj["cls"] not in ("probe", "over", "sweep") and (k := k + 1) % (2 if quick else 3) == 0:
+            T = len(tj["xyz"])
+            tj["history"] = {"initial_cell": {"lengths": [[one(3.0)] * 3] * T, "angles": [[one(90.0)] * 3] * T},
+                             "steps": touches[(k // 2) % len(touches)], "set_via": vias[(k // 2) % len(vias)]}
     if not quick:
         # exhaustive: every float32 within 6 ulps of each field / branch boundary, both signs of the neighbourhood
         bounds = [Fr(-999999, 10000), Fr(9999999, 10000), Fr(-9999995, 100000), Fr(99999995, 100000),
@@ -916,6 +968,10 @@ def check_raw(ctx, jobs, case, tj, sv, res, mem):
         data = base64.b64decode(res["files"]["s%d%s" % (sv["sid"], ext)]["b64"])
         times = tj["time"] if tj.get("time") is not None else [f2b(float(i)) for i in range(T)]
         uv = mem["uv"] if mem["uv"] else [0] * (9 * T)
+        if n > 9 and len(data) >= 88:
+            hist = ctx.notes.setdefault("coverage_extra", {}).setdefault("xtc_header_smallidx_histogram", {})
+            k0 = str(struct.unpack(">i", data[84:88])[0])
+            hist[k0] = hist.get(k0, 0) + 1
         jobs.add(12, [n, T], lambda: native("frames (Gallina XTC decoder)", "%d bytes" % len(data),
                                             "header, time, box and quantised coordinates of every frame"),
                  n32=flat + list(times) + list(uv), txt=data.decode("latin-1"))
@@ -1078,6 +1134,15 @@ def run_cases(ctx, trajs):
     out = ctx.run_impl("codec_impl.py", payload)
     ctx.log("implementation run done")
     results = {r["sid"]: r for r in out["results"]}
+    for tj, mem in zip(trajs, out["mem"]):
+        if tj.get("history") and tj.get("cell") and mem["lengths"] is not None:
+            # the reference is the cell the object holds NOW (assigned through a setter: lengths/angles may have
+            # gone through box vectors and back)
+            T = len(tj["xyz"])
+            tj["cell"] = dict(tj["cell"], lengths=[mem["lengths"][3 * i:3 * i + 3] for i in range(T)],
+                              angles=[mem["angles"][3 * i:3 * i + 3] for i in range(T)])
+            if any(b2f(a) != 90.0 for a in mem["angles"]):
+                tj["cell"]["kind"] = "tric"
     jobs = Jobs()
     rst_obs = []
     mdcrd_cases = []
